@@ -45,7 +45,7 @@ func (Prop) Assumptions() []string {
 		"G2, GT and the pairing are not re-implemented: they are checked as algebraic laws between different computation routes of the real code (table/window routes vs plain double-and-add and square-and-multiply) and anchored by the GM/T 0044.5 annex values; a defect shared by every route and invisible to the annex values would be missed",
 		"G1 is checked against independent affine big-integer arithmetic (verif/ref/ecref) and F_p^2 on-curve / squareness predicates (verif/ref/sm9ref)",
 		"decoder oracle for G2 requires 'on the twist curve' only; membership in the order-n subgroup of the twist (cofactor 2p-n) is neither required by the property statement nor checked by the library, and GT.Unmarshal is required to check coordinate ranges only",
-		"compressed encodings of the point at infinity are outside the enumerated space (G1.MarshalCompressed documents them as undefined)",
+		"compressed point at infinity: G1.MarshalCompressed documents it as undefined, so prefix||0..0 offered to G1.UnmarshalCompressed may be rejected or decoded as infinity and its re-encoding is not compared; for G2 the form 03||0..0 (what G2.MarshalCompressed(infinity) returns and the repository's own test round-trips) must decode to infinity, 02||0..0 may be rejected or accepted but must then re-encode to itself",
 		"scalars are enumerated from the declared alphabet (about 1750 values), not all of [0,2^256)",
 		"dispatch tiers are those reachable on this amd64 host via GODEBUG=cpu.*=off and -tags purego; arm64/ppc64le/s390x assembly is not covered",
 	}
